@@ -701,3 +701,29 @@ mut('c06-nameless-begin-is-plain-command', 'C06', 'reader.py',
     """            if not args:
                 return TexCmd(name, position=c.position)
             expr = TexNamedEnv(""")
+
+# ---- reverted fixes whose `git diff` no longer applies after later fixes
+# touched the same lines, re-expressed on the current code ------------------
+mut('revert-d20-insert-stores-wrapper', 'C15', 'data.py',
+    """            if isinstance(expr, TexNode):  # store the expression, as parsing does
+                expr = expr.expr
+            elif isinstance(expr, str) and not isinstance(expr, TexExpr):
+                expr = TexText(expr)
+            if isinstance(expr, TexExpr):
+                expr.parent = self
+            self._contents.insert(i + j, expr)""",
+    """            self._contents.insert(i + j, expr)""")
+mut('revert-d23-proxy-slot-by-identity', 'C18', 'data.py',
+    """        n = len(self)
+        super().pop(i)
+        return self.all.pop(self.__slot(i if i >= 0 else n + i))""",
+    """        item = super().pop(i)
+        j = [k for k, a in enumerate(self.all) if a is item][0]
+        return self.all.pop(j)""")
+mut('revert-d7-insert-unnormalised', 'C18', 'data.py',
+    """        if i < 0:
+            i = max(len(self) + i, 0)
+        i = min(i, len(self))
+
+        # in the proxy""",
+    """        # in the proxy""")
